@@ -852,6 +852,14 @@ def model_quantize(model,
       quantize_rnn(layer, quantizer_config)
 
     elif layer["class_name"] == "Bidirectional":
+      bidirectional_quantizer_config = get_config(
+          quantizer_config, layer, "QBidirectional")
+
+      # This is to avoid unwanted transformations.
+      if (bidirectional_quantizer_config is None or
+          bidirectional_quantizer_config.get("kernel_quantizer") is None):
+        continue
+
       forward_layer_quantizer_config = {
           layer_config["layer"]["config"]["name"]:
               get_config(quantizer_config, layer, "QBidirectional")
